@@ -110,7 +110,7 @@ struct Sys {
 
 fn gen_sys(r: &mut Rng, tier_rows: usize) -> Sys {
     let n = [1usize, 2, 2, 2, 3, 3, 3, 4, 4, 1][r.below(10)];
-    let base_kind = r.below(6);
+    let base_kind = r.below(7);
     let maxrows = if n == 4 { tier_rows.min(10) } else { tier_rows };
     let mut rows: Vec<Row> = vec![];
     let mut kind = String::new();
@@ -170,6 +170,13 @@ fn gen_sys(r: &mut Rng, tier_rows: usize) -> Sys {
                 let na: Vec<f64> = a.iter().map(|x| -x).collect();
                 rows.push((na, -dotv(&a, &p) + t));
             }
+        }
+        5 => {
+            // a single half-space (what every child of a root decision is), bound of either sign, any scale
+            kind.push_str("single");
+            inner = None;
+            let a = mkrow(r);
+            rows.push((a, half(r, -12, 12)));
         }
         _ => {
             // arbitrary right-hand sides: feasibility is whatever it is
@@ -285,6 +292,20 @@ fn gen_sys(r: &mut Rng, tier_rows: usize) -> Sys {
     }
     if rows.is_empty() {
         rows.push((vec![0.0; n], 1.0));
+    }
+    // row scaling by powers of two (exact; the set is unchanged): normals shorter than 1, mixed magnitudes.
+    // Not for planted thin slabs, whose width is meant relative to the solver tolerance.
+    if !kind.contains("thin") && r.chance(1, 3) {
+        kind.push_str("+scaled");
+        for row in rows.iter_mut() {
+            if r.chance(2, 3) {
+                let f = [0.125, 0.25, 0.5, 2.0, 4.0][r.below(5)];
+                for v in row.0.iter_mut() {
+                    *v *= f;
+                }
+                row.1 *= f;
+            }
+        }
     }
     rows.truncate(maxrows.max(1));
     shuffle(r, &mut rows);
